@@ -223,15 +223,27 @@ func c10Run(c c10Case, rec *vh.Recorder) error {
 	}()
 	initPid := container.VerifInitPid(env)
 	// from here on only this environment's endpoint is logged; forget Build's ping/conf traffic on both sides
-	for dl := time.Now().Add(2 * time.Second); ; {
-		_, ct := log.snapshot()
-		if len(ct) >= 4 { // Build = ping + conf: two commands received, two replies sent
-			break
+	// (a marker Ping, then quiescence: when Build had to be retried on a saturated machine the log also holds lines of the
+	// discarded init, so a line count says nothing)
+	{
+		_, ct0 := log.snapshot()
+		if err := env.Ping(); err != nil {
+			return vh.Infraf("ping after build: %v", err)
 		}
-		if time.Now().After(dl) {
-			return vh.Infraf("container message log did not show Build's traffic: %v", ct)
+		last, stableSince := -1, time.Now()
+		for dl := time.Now().Add(10 * time.Second); ; {
+			_, ct := log.snapshot()
+			if len(ct) != last {
+				last, stableSince = len(ct), time.Now()
+			}
+			if len(ct) >= len(ct0)+2 && len(ct) >= 6 && time.Since(stableSince) > 50*time.Millisecond {
+				break
+			}
+			if time.Now().After(dl) {
+				return vh.Infraf("container message log did not show Build's traffic and the marker ping: %v", ct)
+			}
+			time.Sleep(time.Millisecond)
 		}
-		time.Sleep(time.Millisecond)
 	}
 	log.mu.Lock()
 	log.sock = container.VerifSocketOf(env)
@@ -269,7 +281,7 @@ func c10Run(c c10Case, rec *vh.Recorder) error {
 	}
 	checkLogs := func(ai int, a c10Action, re *regexp.Regexp) error {
 		// host projection of this call
-		deadline := time.Now().Add(2 * time.Second)
+		deadline := time.Now().Add(10 * time.Second)
 		for {
 			h, ct := log.snapshot()
 			seq := strings.Join(h[hostPos:], ";") + ";"
